@@ -245,6 +245,22 @@ def tails():
             out.append(good + bytes([t, l]) + pat(2))
             out.append(bytes([t, l]) + pat(l) + good)
     out.append(good + good)                # duplicate
+    # every ordered pair of well-formed TLVs (the frame format fixes no
+    # order), and all orders of MIUX, RW, SN / VERSION.. for CONNECT and PAX
+    valid = {1: bytes([1, 1, 0x13]), 2: bytes([2, 2, 0x00, 0x10]),
+             3: bytes([3, 2, 0x00, 0x13]), 4: bytes([4, 1, 0x32]),
+             5: bytes([5, 1, 0x05]), 6: bytes([6, 3]) + b'ABC',
+             7: bytes([7, 1, 0x03]), 8: bytes([8, 4, 9]) + b'abc',
+             9: bytes([9, 2, 9, 16]), 10: bytes([10, 2, 1, 2]),
+             11: bytes([11, 2, 3, 4])}
+    for a in sorted(valid):
+        for b in sorted(valid):
+            if a != b:
+                out.append(valid[a] + valid[b])
+    for perm in itertools.permutations((2, 5, 6)):
+        out.append(b''.join(valid[t] for t in perm))
+    for perm in itertools.permutations((1, 2, 3, 4, 7)):
+        out.append(b''.join(valid[t] for t in perm))
     out.append(bytes([5, 255]) + pat(255, 0x61))
     out.append(bytes([5, 255]) + pat(254, 0x61))
     out.append(bytes([8, 255, 1]) + pat(254, 0x61))
@@ -433,6 +449,7 @@ def units(tier):
             out.append(('b', [bytes([first]) + b for b in all_bytes(2)]))
     tl = tails()
     few = tl[::max(1, len(tl) // 24)]
+    few += [t for t in tl if t[:1] == b'\x06' and len(t) > 5][:8]
     # every header with a few (quick) / all (thorough) tails
     for lo in range(0, 65536, 1024):
         out.append(('hdr', (lo, lo + 1024, tl if thorough else few)))
